@@ -36,12 +36,28 @@ use self::send_buffers::{ResponseType, SendBuffers};
 use super::validator::ConnectionValidator;
 use super::{EXTRA_PACKET_SIZE_IPV4, EXTRA_PACKET_SIZE_IPV6};
 
-/// Size of each request buffer
+/// Minimum size of each request buffer
 ///
 /// Needs to fit recvmsg metadata in addition to the payload.
 ///
-/// The payload of a scrape request with 20 info hashes fits in 256 bytes.
-const REQUEST_BUF_LEN: usize = 512;
+/// Large enough for any request that fits in a single unfragmented packet
+/// with a common MTU of 1500 bytes.
+const REQUEST_BUF_LEN: usize = 2048;
+
+/// Upper bound for size of recvmsg metadata (io_uring_recvmsg_out header and
+/// socket address) stored in request buffer before the payload
+const REQUEST_BUF_METADATA_LEN: usize = 64;
+
+/// Calculate size of each request buffer
+///
+/// Make sure that the largest scrape request allowed by the configuration
+/// (connection id, action, transaction id and max_scrape_torrents info
+/// hashes) fits. Requests that don't fit are dropped without a response.
+fn request_buf_len(config: &Config) -> usize {
+    let max_scrape_request_len = 16 + 20 * (config.protocol.max_scrape_torrents as usize);
+
+    REQUEST_BUF_LEN.max(REQUEST_BUF_METADATA_LEN + max_scrape_request_len)
+}
 
 /// Size of each response buffer
 ///
@@ -166,7 +182,7 @@ impl SocketWorker {
 
         let buf_ring = buf_ring::Builder::new(0)
             .ring_entries(ring_entries)
-            .buf_len(REQUEST_BUF_LEN)
+            .buf_len(request_buf_len(&config))
             .build()
             .unwrap();
 
